@@ -415,8 +415,13 @@ class EngineCheck(PropertyCheck):
                             "kind": "restart-changes-executions", "after_failed_build": True,
                             "living_engine_executes_superset": set(y[2]) <= set(x[2]),
                             "input": {"ops": single[n].harness_lines(), "ops_split": c3.harness_lines()}})
+                if prev_failed:
+                    # only the build right after the FIRST restart is comparable: up to the first failed build the two variants
+                    # are the same deterministic run; after the restart a later cancellation (an event index) hits the two
+                    # engines at different points even when the build summaries agree
+                    break
                 if x != y:
-                    break      # from the first difference on the two variants are in different states
+                    break
                 prev_failed = x[1]
         res.evaluations += compared
         res.distinct_nontrivial += same_exec
